@@ -17,11 +17,13 @@ import (
 	"github.com/opencontainers/go-digest"
 
 	"github.com/regclient/regclient"
+	"github.com/regclient/regclient/internal/pqueue"
 	zzos "github.com/regclient/regclient/internal/zzos"
 	lua "github.com/regclient/regclient/internal/zzlua"
 	zztar "github.com/regclient/regclient/internal/zztar"
 	"github.com/regclient/regclient/types/descriptor"
 	"github.com/regclient/regclient/types/mediatype"
+	"github.com/regclient/regclient/types/platform"
 	v1 "github.com/regclient/regclient/types/oci/v1"
 	"github.com/regclient/regclient/types/ref"
 )
@@ -34,7 +36,7 @@ func zzPutBlob19(root string, b []byte) descriptor.Descriptor {
 	return descriptor.Descriptor{Digest: d, Size: int64(len(b))}
 }
 
-// zzSeedLayout installs a layout with one image tagged v1.
+// zzSeedLayout installs a layout with one image tagged v1 and an index of it tagged multi.
 func zzSeedLayout() {
 	zzos.Reset()
 	cfg := zzPutBlob19(zzLayout, []byte(`{"architecture":"amd64","os":"linux"}`))
@@ -45,7 +47,15 @@ func zzSeedLayout() {
 	m := zzPutBlob19(zzLayout, mb)
 	m.MediaType = mediatype.OCI1Manifest
 	m.Annotations = map[string]string{"org.opencontainers.image.ref.name": "v1"}
-	ib, _ := json.Marshal(v1.Index{Versioned: v1.IndexSchemaVersion, MediaType: mediatype.OCI1ManifestList, Manifests: []descriptor.Descriptor{m}})
+	// a multi-platform index over the same image, tagged "multi"
+	child := m
+	child.Annotations = nil
+	child.Platform = &platform.Platform{OS: "linux", Architecture: "amd64"}
+	xb, _ := json.Marshal(v1.Index{Versioned: v1.IndexSchemaVersion, MediaType: mediatype.OCI1ManifestList, Manifests: []descriptor.Descriptor{child}})
+	x := zzPutBlob19(zzLayout, xb)
+	x.MediaType = mediatype.OCI1ManifestList
+	x.Annotations = map[string]string{"org.opencontainers.image.ref.name": "multi"}
+	ib, _ := json.Marshal(v1.Index{Versioned: v1.IndexSchemaVersion, MediaType: mediatype.OCI1ManifestList, Manifests: []descriptor.Descriptor{m, x}})
 	zzos.Cur.Put(zzLayout+"/oci-layout", []byte(`{"imageLayoutVersion":"1.0.0"}`))
 	zzos.Cur.Put(zzLayout+"/index.json", ib)
 }
@@ -95,7 +105,9 @@ func ZZC19_bindings() {
 	zztar.Input = zztar.Output
 	zzos.Cur.Put("/import.tar", []byte("tar"))
 
-	s := New("zz", WithRegClient(regclient.New()), WithSlog(slog.New(slog.NewTextHandler(io.Discard, nil))))
+	// the throttle all scripts of a run share (regbot builds one with Max = parallel, 1 by default)
+	pq := pqueue.New(pqueue.Opts[struct{}]{Max: 1})
+	s := New("zz", WithRegClient(regclient.New()), WithSlog(slog.New(slog.NewTextHandler(io.Discard, nil))), WithThrottle(pq))
 	ls := s.ls
 	// argument pool
 	refUD, f1 := zzCall(ls, s.newReference, lua.LString("ocidir://"+zzLayout+":v1"))
@@ -107,7 +119,12 @@ func ZZC19_bindings() {
 	bhUD, f4 := zzCall(ls, s.blobHead, lua.LString("ocidir://"+zzLayout+":v1"), lua.LString(layerDig))
 	bgUD, f5 := zzCall(ls, s.blobGet, lua.LString("ocidir://"+zzLayout+":v1"), lua.LString(layerDig))
 	zzAssert(!f4 && !f5 && len(bhUD) >= 1 && len(bgUD) >= 1, "setup_blob_reads_succeed")
+	// a manifest list handle (image methods raise an error on it)
+	listUD, f6 := zzCall(ls, s.manifestGetList, lua.LString("ocidir://"+zzLayout+":multi"))
+	zzAssert(!f6 && len(listUD) == 1, "setup_list_read_succeeds")
 	pool := []lua.LValue{
+		listUD[0],
+		lua.LString("ocidir://" + zzLayout + ":multi"),
 		lua.LString("ocidir://" + zzLayout + ":v1"),
 		lua.LString("ocidir://" + zzLayout + ":v2"),
 		lua.LString("ocidir:///new:v1"),
@@ -152,6 +169,16 @@ func ZZC19_bindings() {
 	}
 	if touched > 0 {
 		zzReach("binding_changed_a_layout")
+	}
+	// whatever the call did - returned or raised an error - it holds no slot of the shared
+	// throttle afterwards, so the remaining scripts can run
+	done, terr := pq.TryAcquire(context.Background(), struct{}{})
+	zzAssert(terr == nil && done != nil, "binding_leaves_the_shared_throttle_free")
+	if done != nil {
+		done()
+	}
+	if failed {
+		zzReach("binding_raised_an_error")
 	}
 	if s.dryRun {
 		switch k {
